@@ -232,6 +232,21 @@ func init() {
 	reg(rt+"StrContains", func(ex *Exec, fn *ssa.Function, args []Value, site string) Value {
 		return lower(mkContains(strTerm(args[0]), strTerm(args[1])))
 	})
+	reg(rt+"StrPlain", func(ex *Exec, fn *ssa.Function, args []Value, site string) Value {
+		// non-empty, lower-case letters only
+		if s, ok := args[0].(string); ok {
+			if s == "" {
+				return false
+			}
+			for _, c := range s {
+				if c < 'a' || c > 'z' {
+					return false
+				}
+			}
+			return true
+		}
+		return lower(mkStrOp("str.in_re", SBool, strTerm(args[0]), mkRaw("(re.+ (re.range \"a\" \"z\"))")))
+	})
 	reg(rt+"StrHasPrefix", func(ex *Exec, fn *ssa.Function, args []Value, site string) Value {
 		return lower(mkPrefixOf(strTerm(args[1]), strTerm(args[0])))
 	})
@@ -307,6 +322,18 @@ func init() {
 		}
 		return n
 	})
+	deepEq := func(ex *Exec, fn *ssa.Function, args []Value, site string) Value {
+		a, b := args[0].(Iface), args[1].(Iface)
+		if a.T == nil || b.T == nil {
+			return a.T == nil && b.T == nil
+		}
+		if !types.Identical(a.T, b.T) {
+			return false
+		}
+		return lower(ex.snapEq(ex.snapshot(a.V, a.T, 0), ex.snapshot(b.V, b.T, 0)))
+	}
+	reg("reflect.DeepEqual", deepEq)
+	reg("github.com/google/go-cmp/cmp.Equal", deepEq)
 	reg("sort.Strings", sortStrings)
 	reg("slices.Sort", func(ex *Exec, fn *ssa.Function, args []Value, site string) Value {
 		s := args[0].(Slice)
@@ -318,6 +345,83 @@ func init() {
 		return sortStrings(ex, fn, args, site)
 	})
 	reg("sort.Ints", sortInts)
+	// comparator-driven sorts: stable insertion sort, comparator interpreted, outcome decided by the solver
+	sortBy := func(ex *Exec, s Slice, less func(i, j int) Value, site string) {
+		for i := 1; i < s.Len; i++ {
+			for j := i; j > 0; j-- {
+				r := less(j, j-1)
+				var lt bool
+				switch x := r.(type) {
+				case bool:
+					lt = x
+				case *Term:
+					lt = ex.decideBool(x)
+				}
+				if !lt {
+					break
+				}
+				if s.O != nil && s.O.Frozen {
+					ex.mon.frozenWrite(ex, s.O, site+" (sort swaps elements)")
+				}
+				s.Arr[s.Off+j], s.Arr[s.Off+j-1] = s.Arr[s.Off+j-1], s.Arr[s.Off+j]
+			}
+		}
+	}
+	cmpSort := func(ex *Exec, fn *ssa.Function, args []Value, site string) Value {
+		s := args[0].(Slice)
+		sortBy(ex, s, func(i, j int) Value {
+			r := ex.callValue(args[1], []Value{s.Arr[s.Off+i], s.Arr[s.Off+j]}, site)
+			switch x := r.(type) {
+			case int64:
+				return x < 0
+			case *Term:
+				return lower(mkIntCmp("<", x, mkInt(0)))
+			}
+			panic(pathAbort{"unsupported: comparator result"})
+		}, site)
+		return nil
+	}
+	reg("slices.SortFunc", cmpSort)
+	reg("slices.SortStableFunc", cmpSort)
+	lessSort := func(ex *Exec, fn *ssa.Function, args []Value, site string) Value {
+		s := args[0].(Iface).V.(Slice)
+		sortBy(ex, s, func(i, j int) Value {
+			return ex.callValue(args[1], []Value{int64(i), int64(j)}, site)
+		}, site)
+		return nil
+	}
+	reg("sort.Slice", lessSort)
+	reg("sort.SliceStable", lessSort)
+	reg("strings.Compare", func(ex *Exec, fn *ssa.Function, args []Value, site string) Value {
+		a, aok := args[0].(string)
+		b, bok := args[1].(string)
+		if aok && bok {
+			return int64(strings.Compare(a, b))
+		}
+		x, y := strTerm(args[0]), strTerm(args[1])
+		return lower(mkIte(mkStrLt(x, y), mkInt(-1), mkIte(mkEq(x, y), mkInt(0), mkInt(1))))
+	})
+	reg("cmp.Compare", func(ex *Exec, fn *ssa.Function, args []Value, site string) Value {
+		switch args[0].(type) {
+		case string, *Term:
+			if t, ok := args[0].(*Term); !ok || t.Sort == SStr {
+				if _, ok := args[1].(int64); !ok {
+					x, y := strTerm(args[0]), strTerm(args[1])
+					return lower(mkIte(mkStrLt(x, y), mkInt(-1), mkIte(mkEq(x, y), mkInt(0), mkInt(1))))
+				}
+			}
+		}
+		x, y := intTerm(args[0]), intTerm(args[1])
+		return lower(mkIte(mkIntCmp("<", x, y), mkInt(-1), mkIte(mkEq(x, y), mkInt(0), mkInt(1))))
+	})
+	reg("strings.EqualFold", func(ex *Exec, fn *ssa.Function, args []Value, site string) Value {
+		a, aok := args[0].(string)
+		b, bok := args[1].(string)
+		if aok && bok {
+			return strings.EqualFold(a, b)
+		}
+		return lower(mkEq(mkStrOp("str.to_lower", SStr, strTerm(args[0])), mkStrOp("str.to_lower", SStr, strTerm(args[1]))))
+	})
 	reg("strings.Join", func(ex *Exec, fn *ssa.Function, args []Value, site string) Value {
 		s := args[0].(Slice)
 		sep := strTerm(args[1])
@@ -425,7 +529,8 @@ func init() {
 		if a, ok := args[0].(string); ok {
 			return strings.ToLower(a)
 		}
-		panic(pathAbort{"unsupported: symbolic ToLower"})
+		// cvc5 extension (ASCII case mapping); z3 answers unknown on it
+		return lower(mkStrOp("str.to_lower", SStr, strTerm(args[0])))
 	})
 	reg("strings.TrimSpace", func(ex *Exec, fn *ssa.Function, args []Value, site string) Value {
 		if a, ok := args[0].(string); ok {
@@ -437,7 +542,7 @@ func init() {
 		if a, ok := args[0].(string); ok {
 			return strings.ToUpper(a)
 		}
-		panic(pathAbort{"unsupported: symbolic ToUpper"})
+		return lower(mkStrOp("str.to_upper", SStr, strTerm(args[0])))
 	})
 	reg("strings.TrimPrefix", func(ex *Exec, fn *ssa.Function, args []Value, site string) Value {
 		a, aok := args[0].(string)
